@@ -88,10 +88,21 @@ def impl_spectrum(cls, which, x, dt, nopt, p2opt, npad, via_property=False):
     """returns (complex spectrum, freqs) through the public entry point `which`"""
     import eqsig
     from eqsig.fns import frequency as fq
-    sig = getattr(eqsig, cls)(np.array(x, dtype=float), dt)
+    src = np.array(x, dtype=float)
+    sig = getattr(eqsig, cls)(src, dt)
     if which == 0:
         if via_property and nopt is None and p2opt is None:
-            return np.array(sig.fa_spectrum), np.array(sig.fa_freqs)
+            fa0, fr0 = np.array(sig.fa_spectrum), np.array(sig.fa_freqs)
+            # the caller re-uses the array it built the object from: the object's record, and the spectrum of that record, stay
+            src *= -2.0
+            src += 3.0
+            fa1, fr1, v1 = np.array(sig.fa_spectrum), np.array(sig.fa_freqs), np.array(sig.values, dtype=float)
+            if not np.array_equal(v1, np.array(x, dtype=float)):
+                raise RuntimeError('RecordChangedUnderObject: writing into the array the object was constructed from changed its record '
+                                   '(the spectrum it reports is that of the old record)')
+            if not (np.array_equal(fa0, fa1) and np.array_equal(fr0, fr1)):
+                raise RuntimeError('NotRepeatable: fa_spectrum / fa_freqs changed between two reads with no operation on the object')
+            return fa0, fr0
         kw = {}
         if p2opt is not None:
             kw['p2_plus'] = int(p2opt)
